@@ -20,7 +20,7 @@ impl Check for C01 {
         900
     }
     fn cases(&self, tier: Tier) -> u64 {
-        tier.pick(20_000, 1_000_000)
+        tier.pick(60_000, 3_000_000)
     }
     fn run_case(&self, src: &mut Src, obs: &mut Obs) -> Result<(), Fail> {
         if src.chance(1, 5) {
